@@ -117,6 +117,29 @@ impl C18 {
                 }
             }
         }
+        // the same read typed into `ucg repl`: the failure must not show the environment either
+        if let (true, "read-unset", Err(name)) = (c.strict && o.key % 3 == 0, c.label, &c.want) {
+            if let Some(expr) = c.src.strip_prefix("out json {v = ").and_then(|x| x.strip_suffix("};\n")) {
+                o.class("repl-read-unset");
+                let mut env = c.env.clone();
+                env.push(("UCG_SECRET".to_string(), SECRET.to_string()));
+                let rdir = crate::ucgrun::new_scratch_dir("c18repl");
+                let rr = cli::run_repl(&format!("{};\n", expr), env, true, &rdir, &self.home);
+                let _ = std::fs::remove_dir_all(&rdir);
+                if !rr.timed_out {
+                    if rr.stdout.contains(SECRET) || rr.stderr.contains(SECRET) {
+                        o.fail("C18/repl-secret-disclosed", format!("`{};` typed into ucg repl discloses the value of an unrelated environment variable\n{}\noutput:\n{}", expr, rendered, rr.stdout));
+                        return o;
+                    }
+                    for (k, v) in &c.env {
+                        if v.len() >= 6 && rr.stdout.contains(v.as_str()) && !expr.contains(v.as_str()) && k != name {
+                            o.fail("C18/repl-other-values-disclosed", format!("`{};` typed into ucg repl discloses the value of {}\n{}\noutput:\n{}", expr, k, rendered, rr.stdout));
+                            return o;
+                        }
+                    }
+                }
+            }
+        }
         match &c.want {
             Ok(want) => {
                 if r.code != Some(0) {
